@@ -288,7 +288,8 @@ def repo_state() -> dict:
 
     import hashlib
 
-    return {"head": git("rev-parse", "--short", "HEAD").strip(), "diff_sha": hashlib.sha256(git("diff").encode()).hexdigest()[:16]}
+    return {"path": REPO, "head": git("rev-parse", "--short", "HEAD").strip(), "diff_sha": hashlib.sha256(git("diff").encode()).hexdigest()[:16],
+            "dirty": bool(git("diff").strip())}
 
 
 def write_replay(pid: str, plan: dict, rec: dict, dig: str, tier: str, prefix=None) -> str:
